@@ -41,7 +41,9 @@ Record GE (E : nat -> nat -> Prop) (s : st) (hs : list handle) (al : list (nat *
   g_arch_keys : NoDup (map a_key (archs s));
   g_arch_members : forall ai a idx h, ~ E ai idx -> nth_error (archs s) ai = Some a -> nth_error (a_ents a) idx = Some h ->
                    exists k, In (k, a_key a) al /\ k < length hs /\ hnd hs k = h /\
-                             nth_error (locs s) (N.to_nat (fst h)) = Some {| l_arch := Some ai; l_idx := idx |}
+                             nth_error (locs s) (N.to_nat (fst h)) = Some {| l_arch := Some ai; l_idx := idx |};
+  (* every earlier version of an id was issued as a handle: versions are bounded by the number of handles issued *)
+  g_hist : forall i sl v, nth_error (slots s) i = Some sl -> sl <> null_slot -> (v < s_ver sl)%N -> In (N.of_nat i, v) hs
 }.
 Definition noex : nat -> nat -> Prop := fun _ _ => False.
 Notation G := (GE noex).
@@ -49,7 +51,7 @@ Arguments g_len {E s hs al rem}. Arguments g_free_nodup {E s hs al rem}. Argumen
 Arguments g_free_ver {E s hs al rem}. Arguments g_hs_ver {E s hs al rem}. Arguments g_hs_id {E s hs al rem}.
 Arguments g_hs_nodup {E s hs al rem}. Arguments g_al_nodup {E s hs al rem}. Arguments g_alive {E s hs al rem}.
 Arguments g_dead {E s hs al rem}. Arguments g_pend {E s hs al rem}. Arguments g_slots {E s hs al rem}.
-Arguments g_arch_keys {E s hs al rem}. Arguments g_arch_members {E s hs al rem}.
+Arguments g_arch_keys {E s hs al rem}. Arguments g_arch_members {E s hs al rem}. Arguments g_hist {E s hs al rem}.
 Lemma noex_no ai idx : ~ noex ai idx. Proof. intros []. Qed.
 
 (* ---- what the invariant says about validity ---- *)
@@ -258,4 +260,139 @@ Proof.
       assert (k'' = k').
       { eapply (live_ids_distinct s hs al rem); eauto. rewrite C', C. apply N2Nat.inj. assumption. }
       subst k''. rewrite <- C' in D'. rewrite <- C in D. rewrite D' in D. inversion D. congruence.
+  - (* history of versions *)
+    intros j sl w Hs Hnn Hw. rewrite Eslots in Hs. destruct (Nat.eq_dec (N.to_nat i) j) as [<-|Hne].
+    + rewrite nth_error_upd_same in Hs by assumption. inversion Hs; subst sl. simpl in Hw. rewrite N2Nat.id.
+      destruct (N.eq_dec w v) as [->|Hwv].
+      * rewrite <- Eh. apply nth_In_hnd. assumption.
+      * rewrite <- (N2Nat.id i). apply (g_hist HG (N.to_nat i) _ w Hslot); [|simpl; lia].
+        intros E. inversion E as [[E1 E2]]. pose proof (g_hs_ver HG _ (nth_In_hnd hs k Hklt)) as Hb. rewrite Eh in Hb. simpl in Hb. unfold NULL_VER in *. lia.
+    + rewrite nth_error_upd_other in Hs by assumption. eapply (g_hist HG); eassumption.
+Qed.
+
+(* ------------------------------------------------------------------------------------------ *)
+Lemma hnd_app1 hs h k : k < length hs -> hnd (hs ++ [h]) k = hnd hs k.
+Proof. intros H. unfold hnd. apply app_nth1. assumption. Qed.
+Lemma hnd_app_last hs h : hnd (hs ++ [h]) (length hs) = h.
+Proof. unfold hnd. rewrite app_nth2 by lia. rewrite Nat.sub_diag. reflexivity. Qed.
+Lemma hnd_beyond hs k : length hs <= k -> hnd hs k = null_handle.
+Proof. intros H. unfold hnd. apply nth_overflow. assumption. Qed.
+Lemma In_hnd hs h : In h hs -> exists k, k < length hs /\ hnd hs k = h.
+Proof. intros H. destruct (In_nth hs h null_handle H) as (k & A & B). exists k. auto. Qed.
+
+Lemma map_key_upd l ai a ents : nth_error l ai = Some a ->
+  map a_key (upd l ai {| a_key := a_key a; a_ents := ents |}) = map a_key l.
+Proof.
+  revert ai. induction l as [|x t IH]; intros [|n] H; simpl in *; try discriminate; [inversion H; subst; reflexivity|].
+  f_equal. apply IH. assumption.
+Qed.
+
+(* versions are bounded by the number of handles issued *)
+Require Import Coq.Logic.FinFun.
+Lemma ver_le_count {X} s hs al rem i sl : GE X s hs al rem -> nth_error (slots s) i = Some sl -> sl <> null_slot ->
+  (s_ver sl <= N.of_nat (length hs))%N.
+Proof.
+  intros HG Hs Hn.
+  set (l := map (fun v => (N.of_nat i, N.of_nat v)) (seq 0 (N.to_nat (s_ver sl)))).
+  assert (Hnd : NoDup l).
+  { apply Injective_map_NoDup; [|apply seq_NoDup]. intros a b E. inversion E. apply Nat2N.inj. assumption. }
+  assert (Hincl : incl l hs).
+  { intros p Hp. unfold l in Hp. apply in_map_iff in Hp. destruct Hp as (v & <- & Hv). apply in_seq in Hv.
+    apply (g_hist HG i sl); [assumption|assumption|lia]. }
+  pose proof (NoDup_incl_length Hnd Hincl) as Hl. unfold l in Hl. rewrite map_length, seq_length in Hl. lia.
+Qed.
+
+(* a new entity (i, v) becomes alive in archetype ai; no commands are pending *)
+Lemma G_add s s' hs al i v ai a key :
+  G s hs al [] ->
+  length (locs s') = length (slots s') -> length (slots s) <= length (slots s') ->
+  nth_error (slots s') (N.to_nat i) = Some {| s_id := i; s_ver := v |} ->
+  (forall j, j <> N.to_nat i -> nth_error (slots s') j = nth_error (slots s) j) ->
+  NoDup (W s') -> (forall j, In j (W s') <-> In j (W s) /\ j <> i) ->
+  (forall k, k < length hs -> fst (hnd hs k) = i -> (snd (hnd hs k) < v)%N /\ ~ alive al k) ->
+  nth_error (archs s) ai = Some a -> a_key a = key ->
+  archs s' = upd (archs s) ai {| a_key := a_key a; a_ents := a_ents a ++ [(i, v)] |} ->
+  nth_error (locs s') (N.to_nat i) = Some {| l_arch := Some ai; l_idx := length (a_ents a) |} ->
+  (forall j, j <> N.to_nat i -> nth_error (locs s') j = nth_error (locs s) j) ->
+  (v < NULL_VER)%N -> (i < NULL_ID)%N -> (forall w, (w < v)%N -> In (i, w) hs) ->
+  G s' (hs ++ [(i, v)]) (al ++ [(length hs, key)]) [].
+Proof.
+  intros HG A1 A10 A2 A3 A4n A4 A5 Harch Hkey A6 A7 A7o A8v A8i A9.
+  assert (Hai : ai < length (archs s)) by (apply nth_error_Some; congruence).
+  assert (Hfresh : forall k key', In (k, key') al -> fst (hnd hs k) <> i).
+  { intros k key' Hin E. destruct (g_alive HG k key' Hin) as (Hlt & _). destruct (A5 k Hlt E) as (_ & Hna). apply Hna.
+    unfold alive. apply in_map_iff. exists (k, key'). auto. }
+  assert (Hnat : forall x, x <> i -> N.to_nat x <> N.to_nat i) by (intros x Hx E; apply Hx; apply N2Nat.inj; assumption).
+  constructor.
+  - assumption.
+  - assumption.
+  - intros j Hj. apply A4 in Hj. destruct Hj as (Hj & _). pose proof (g_free_range HG j Hj). lia.
+  - intros j sl Hj Hs. apply A4 in Hj. destruct Hj as (Hj & Hne). rewrite A3 in Hs by (apply Hnat; assumption). eapply (g_free_ver HG); eassumption.
+  - intros h Hin. apply in_app_or in Hin. destruct Hin as [Hin|[<-|[]]]; [apply (g_hs_ver HG); assumption|assumption].
+  - intros h Hin. apply in_app_or in Hin. destruct Hin as [Hin|[<-|[]]]; [apply (g_hs_id HG); assumption|assumption].
+  - apply NoDup_app_intro_single; [apply (g_hs_nodup HG)|]. intros Hin. apply In_hnd in Hin. destruct Hin as (k & Hk & E).
+    destruct (A5 k Hk) as (Hlt & _); [rewrite E; reflexivity|]. rewrite E in Hlt. simpl in Hlt. lia.
+  - rewrite map_app. simpl. apply NoDup_app_intro_single; [apply (g_al_nodup HG)|]. intros Hin. apply in_map_iff in Hin.
+    destruct Hin as ((k, key') & E & Hin). simpl in E. subst k. destruct (g_alive HG _ _ Hin) as (Hlt & _). lia.
+  - (* alive *)
+    intros k key' Hin. apply in_app_or in Hin. destruct Hin as [Hin|[E|[]]].
+    + destruct (g_alive HG k key' Hin) as (Hklt & HnW & Hslot & ai' & idx' & a' & Hloc' & Harch' & Hkey' & Hent').
+      rewrite app_length. split; [lia|]. rewrite hnd_app1 by assumption.
+      pose proof (Hfresh k key' Hin) as Hne.
+      split; [intros Hw; apply A4 in Hw; tauto|]. split; [rewrite A3 by (apply Hnat; assumption); assumption|].
+      destruct (Nat.eq_dec ai' ai) as [->|Hnai].
+      * rewrite Harch in Harch'. inversion Harch'; subst a'.
+        exists ai, idx', {| a_key := a_key a; a_ents := a_ents a ++ [(i, v)] |}.
+        rewrite A7o by (apply Hnat; assumption). rewrite A6, nth_error_upd_same by assumption. simpl.
+        repeat split; try assumption. rewrite nth_error_app1; [assumption|]. apply nth_error_Some. congruence.
+      * exists ai', idx', a'. rewrite A7o by (apply Hnat; assumption). rewrite A6, nth_error_upd_other by congruence. auto.
+    + inversion E; subst k key'. rewrite app_length. simpl. split; [lia|]. rewrite hnd_app_last. simpl.
+      split; [intros Hw; apply A4 in Hw; tauto|]. split; [assumption|].
+      exists ai, (length (a_ents a)), {| a_key := a_key a; a_ents := a_ents a ++ [(i, v)] |}.
+      rewrite A6, nth_error_upd_same by assumption. simpl. repeat split; try assumption. apply nth_error_app_last.
+  - (* dead *)
+    intros k Hk Hna _. rewrite app_length in Hk. simpl in Hk.
+    destruct (Nat.eq_dec k (length hs)) as [->|Hne].
+    + exfalso. apply Hna. unfold alive. rewrite map_app. apply in_or_app. right. left. reflexivity.
+    + assert (Hk' : k < length hs) by lia. rewrite hnd_app1 by assumption.
+      assert (Hna' : ~ alive al k).
+      { intros Ha. apply Hna. unfold alive in *. rewrite map_app. apply in_or_app. left. assumption. }
+      assert (Hnp : ~ pend [] k) by (intros (key' & [])).
+      destruct (g_dead HG k Hk' Hna' Hnp) as (sl & Hs & Hlt). unfold dead_at.
+      destruct (N.eq_dec (fst (hnd hs k)) i) as [E|E].
+      * exists {| s_id := i; s_ver := v |}. rewrite E. split; [assumption|]. simpl. apply (A5 k Hk' E).
+      * exists sl. rewrite A3 by (apply Hnat; assumption). auto.
+  - intros k (key' & []).
+  - (* every slot *)
+    intros j Hj. destruct (Nat.eq_dec j (N.to_nat i)) as [->|Hne].
+    + right. left. exists (length hs), key. split; [apply in_or_app; right; left; reflexivity|]. rewrite hnd_app_last. simpl. rewrite N2Nat.id. reflexivity.
+    + assert (Hj' : j < length (slots s)).
+      { apply nth_error_Some. rewrite <- A3 by assumption. apply nth_error_Some. assumption. }
+      assert (Hji : N.of_nat j <> i) by (intros E; apply Hne; rewrite <- E, Nat2N.id; reflexivity).
+      destruct (g_slots HG j Hj') as [H|[(k & key' & Hin & E)|(H1 & H2)]].
+      * left. apply A4. auto.
+      * right. left. exists k, key'. split; [apply in_or_app; left; assumption|]. destruct (g_alive HG k key' Hin) as (Hlt & _). rewrite hnd_app1 by assumption. assumption.
+      * right. right. split; [rewrite A3 by assumption; assumption|]. intros Hw. apply A4 in Hw. tauto.
+  - rewrite A6, map_key_upd by assumption. apply (g_arch_keys HG).
+  - (* members *)
+    intros ai' a' idx' h' _ Ha' Hh'. rewrite A6 in Ha'.
+    destruct (Nat.eq_dec ai ai') as [<-|Hnai].
+    + rewrite nth_error_upd_same in Ha' by assumption. inversion Ha'; subst a'. simpl in *.
+      destruct (Nat.lt_ge_cases idx' (length (a_ents a))) as [Hlt|Hge].
+      * rewrite nth_error_app1 in Hh' by assumption.
+        destruct (g_arch_members HG ai a idx' h' (noex_no _ _) Harch Hh') as (k & A & B & C & D).
+        exists k. rewrite app_length, hnd_app1 by assumption. split; [apply in_or_app; left; assumption|]. split; [lia|]. split; [assumption|].
+        rewrite A7o; [assumption|]. apply Hnat. rewrite <- C. eapply Hfresh; eassumption.
+      * assert (idx' = length (a_ents a)).
+        { assert (idx' < length (a_ents a ++ [(i, v)])) by (apply nth_error_Some; congruence). rewrite app_length in H. simpl in H. lia. }
+        subst idx'. rewrite nth_error_app_last in Hh'. inversion Hh'; subst h'.
+        exists (length hs). rewrite app_length, hnd_app_last. simpl. split; [apply in_or_app; right; left; rewrite Hkey; reflexivity|]. split; [lia|]. split; [reflexivity|assumption].
+    + rewrite nth_error_upd_other in Ha' by assumption.
+      destruct (g_arch_members HG ai' a' idx' h' (noex_no _ _) Ha' Hh') as (k & A & B & C & D).
+      exists k. rewrite app_length, hnd_app1 by assumption. split; [apply in_or_app; left; assumption|]. split; [lia|]. split; [assumption|].
+      rewrite A7o; [assumption|]. apply Hnat. rewrite <- C. eapply Hfresh; eassumption.
+  - (* history *)
+    intros j sl w Hs Hnn Hw. apply in_or_app. destruct (Nat.eq_dec j (N.to_nat i)) as [->|Hne].
+    + rewrite A2 in Hs. inversion Hs; subst sl. simpl in Hw. left. rewrite N2Nat.id. apply A9. assumption.
+    + left. rewrite A3 in Hs by assumption. eapply (g_hist HG); eassumption.
 Qed.
